@@ -410,15 +410,16 @@ fn drive8<E: E8>(o: &mut Out, thorough: bool, seed: u64, threads: usize) {
     for &(p, b) in bps.iter().take(4096) { emit_f64(o, E::NAME, &f64enc, &f64_around(p, b)); }
     // (v) decoders
     for k in 0..=255u8 {
-        match catch(|| { let x = E::dec32(k); (x, E::enc32(x)) }) {
-            Ok((x, back)) => o.ev("dec", json!({"enc": E::NAME, "t": "f32", "k": k, "max": 255, "x": ex32(x), "back": back})),
-            Err(m) => o.ev("dec", json!({"enc": E::NAME, "t": "f32", "k": k, "max": 255, "x": [2, 0], "back": -1, "panic": 1, "msg": m})),
-        }
-        match catch(|| { let x = E::dec64(k); (x, E::enc64(x)) }) {
-            Ok((x, back)) => o.ev("dec", json!({"enc": E::NAME, "t": "f64", "k": k, "max": 255, "x": ex64(x), "back": back})),
-            Err(m) => o.ev("dec", json!({"enc": E::NAME, "t": "f64", "k": k, "max": 255, "x": [2, 0], "back": -1, "panic": 1, "msg": m})),
-        }
-        o.evals += 4;
+        let r = catch(|| { let (x32, x64) = (E::dec32(k), E::dec64(k)); (x32, x64, E::enc32(x32), E::enc64(x64)) });
+        emit_dec(o, E::NAME, k as u32, 255, r.map(|(a, b, c, d)| (a, b, c as i32, d as i32)));
+    }
+}
+
+fn emit_dec(o: &mut Out, enc: &str, k: u32, max: u32, r: Result<(f32, f64, i32, i32), String>) {
+    o.evals += 4;
+    match r {
+        Ok((x32, x64, b32, b64)) => o.ev("dec", json!({"enc": enc, "k": k, "max": max, "x32": ex32(x32), "x64": ex64(x64), "back32": b32, "back64": b64})),
+        Err(m) => o.ev("dec", json!({"enc": enc, "k": k, "max": max, "x32": [2, 0], "x64": [2, 0], "back32": -1, "back64": -1, "panic": 1, "msg": m})),
     }
 }
 
@@ -432,6 +433,7 @@ fn drive16(o: &mut Out, thorough: bool, seed: u64, threads: usize) {
         emit_spec(o, PP, "raw", &raw, b);
     }
     let stride: usize = if thorough { 1 } else { 16 };
+    let dec_stride: usize = if thorough { 1 } else { 64 };
     // points: both ends of every table segment (65536 patterns each)
     let mut mags: Vec<u32> = vec![];
     let mut b0 = PP_MIN;
@@ -482,17 +484,10 @@ fn drive16(o: &mut Out, thorough: bool, seed: u64, threads: usize) {
     emit_f64(o, PP, &f64enc, &f64_specials(PP_MIN));
     let fstride = if thorough { 1 } else { 4 };
     for &(p, b) in bps.iter().step_by(fstride) { emit_f64(o, PP, &f64enc, &f64_around(p, b)); }
-    for k in (0..=65535usize).step_by(stride).chain([65535usize]) {
+    for k in (0..=65535usize).step_by(dec_stride).chain([65535usize]) {
         let k = k as u16;
-        match catch(|| { let x = pp_dec32(k); (x, pp_enc32(x)) }) {
-            Ok((x, back)) => o.ev("dec", json!({"enc": PP, "t": "f32", "k": k, "max": 65535, "x": ex32(x), "back": back})),
-            Err(m) => o.ev("dec", json!({"enc": PP, "t": "f32", "k": k, "max": 65535, "x": [2, 0], "back": -1, "panic": 1, "msg": m})),
-        }
-        match catch(|| { let x = pp_dec64(k); (x, pp_enc64(x)) }) {
-            Ok((x, back)) => o.ev("dec", json!({"enc": PP, "t": "f64", "k": k, "max": 65535, "x": ex64(x), "back": back})),
-            Err(m) => o.ev("dec", json!({"enc": PP, "t": "f64", "k": k, "max": 65535, "x": [2, 0], "back": -1, "panic": 1, "msg": m})),
-        }
-        o.evals += 4;
+        let r = catch(|| { let (x32, x64) = (pp_dec32(k), pp_dec64(k)); (x32, x64, pp_enc32(x32), pp_enc64(x64)) });
+        emit_dec(o, PP, k as u32, 65535, r.map(|(a, b, c, d)| (a, b, c as i32, d as i32)));
     }
 }
 
@@ -521,17 +516,19 @@ impl Fl for f64 {
 fn curve_inputs<F: Fl>(knees: &[f64], dense: usize, rng: &mut Sm64) -> Vec<F> {
     let mut v: Vec<F> = vec![];
     for i in 0..=dense { v.push(F::of(i as f64 / dense as f64)); }
-    for j in 1..=30 { v.push(F::of(2f64.powi(-j))); v.push(F::of(0.75 * 2f64.powi(-j))); }
+    for j in (1..=30).step_by(if dense >= 400 { 1 } else { 3 }) { v.push(F::of(2f64.powi(-j))); v.push(F::of(0.75 * 2f64.powi(-j))); }
     for _ in 0..dense / 2 { v.push(F::of(rng.unit())); }
     for _ in 0..dense / 4 { v.push(F::of(rng.unit() * 0.1)); }
     for &k in knees {
         let mut a = F::of(k);
         let mut b = a;
         v.push(a);
-        for _ in 0..6 { a = a.up(); b = b.down(); v.push(a); v.push(b); }
-        for j in 2..=44 {
+        for _ in 0..3 { a = a.up(); b = b.down(); v.push(a); v.push(b); }
+        let mut j = 2;
+        while j <= 44 {
             v.push(F::of(k * (1.0 + 2f64.powi(-j))));
             v.push(F::of(k * (1.0 - 2f64.powi(-j))));
+            j += if dense >= 400 { 1 } else { 3 };
         }
         for _ in 0..dense / 8 { v.push(F::of(k * rng.range(0.8, 1.25))); }
     }
@@ -565,7 +562,7 @@ where
 }
 
 fn drive_curves(o: &mut Out, thorough: bool, seed: u64) {
-    let dense = if thorough { 1600 } else { 120 };
+    let dense = if thorough { 800 } else { 40 };
     const RB: f64 = 0.018053968510807;
     macro_rules! both { ($E:ty, $name:expr, $kx:expr, $ky:expr) => {
         curves_of::<$E, f32>(o, $name, $kx, $ky, dense, seed);
@@ -767,17 +764,16 @@ fn run_one(o: &mut Out, e: &Value, threads: usize) {
         }
         "f64" => emit_f64(o, enc, &*f64_encoder_by_name(enc), &[f64_from(&e["x"])]),
         "dec" => {
-            let k = e["k"].as_u64().unwrap();
-            let t = e["t"].as_str().unwrap();
+            let k = e["k"].as_u64().unwrap() as u32;
             macro_rules! d8 { ($E:ty) => {{
-                if t == "f32" { let x = <$E>::dec32(k as u8); o.ev("dec", json!({"enc": enc, "t": t, "k": k, "max": 255, "x": ex32(x), "back": <$E>::enc32(x)})); }
-                else { let x = <$E>::dec64(k as u8); o.ev("dec", json!({"enc": enc, "t": t, "k": k, "max": 255, "x": ex64(x), "back": <$E>::enc64(x)})); }
+                let r = catch(|| { let (x32, x64) = (<$E>::dec32(k as u8), <$E>::dec64(k as u8)); (x32, x64, <$E>::enc32(x32) as i32, <$E>::enc64(x64) as i32) });
+                emit_dec(o, enc, k, 255, r);
             }}; }
             match enc {
                 "srgb" => d8!(ESrgb), "rec_oetf" => d8!(ERec), "adobe" => d8!(EAdobe), "p3" => d8!(EP3),
                 _ => {
-                    if t == "f32" { let x = pp_dec32(k as u16); o.ev("dec", json!({"enc": enc, "t": t, "k": k, "max": 65535, "x": ex32(x), "back": pp_enc32(x)})); }
-                    else { let x = pp_dec64(k as u16); o.ev("dec", json!({"enc": enc, "t": t, "k": k, "max": 65535, "x": ex64(x), "back": pp_enc64(x)})); }
+                    let r = catch(|| { let (x32, x64) = (pp_dec32(k as u16), pp_dec64(k as u16)); (x32, x64, pp_enc32(x32) as i32, pp_enc64(x64) as i32) });
+                    emit_dec(o, enc, k, 65535, r);
                 }
             }
         }
@@ -788,16 +784,16 @@ fn run_one(o: &mut Out, e: &Value, threads: usize) {
     }
 }
 
-/// cases generated by TLC (MC_Lut): [enc, k, first, last] - the model's run of code k; evaluate the real encoder at
-/// both ends and just outside
+/// cases generated by TLC (MC_Lut): [enc, k, b] - b is the first pattern of code k in the model; evaluate the real
+/// encoder on both sides of the boundary
 fn run_hist(o: &mut Out, path: &str) {
     let text = std::fs::read_to_string(path).expect("hist file");
     let mut by_enc: BTreeMap<String, Vec<u32>> = BTreeMap::new();
     for line in text.lines().filter(|l| !l.trim().is_empty()) {
         let c: Value = serde_json::from_str(line).expect("hist line");
-        let (first, last) = (c[2].as_u64().unwrap() as u32, c[3].as_u64().unwrap() as u32);
+        let b = c[2].as_u64().unwrap() as u32;
         let v = by_enc.entry(c[0].as_str().unwrap().to_string()).or_default();
-        v.extend([first.saturating_sub(1), first, last, (last + 1).min(INF)]);
+        v.extend([b.saturating_sub(2), b.saturating_sub(1), b, (b + 1).min(INF)]);
     }
     for (enc, mags) in by_enc {
         emit_pts(o, &enc, "hist", &*encoder_by_name(&enc, "pub"), &mags);
